@@ -85,6 +85,9 @@ def oracle(sc, res):
     for ln in eqs:
         toks = ln.split()
         if toks[0] == "[function]": fns[toks[2]] = toks[1]; continue
+        if toks[0] == "[ioblock]":
+            foreign = [t for t in toks[3:] if t.split("/", 1)[0] != toks[1]]
+            if foreign: bad("block-lists-foreign-wire", "an I/O block of call %s lists wires of another function context (%s) and proving did not report it" % (toks[1], " ".join(foreign[:3])))
         if toks[0] == "[ioblock]": blocks[toks[1]][toks[2]] = toks[3:]; percall[toks[1]].append("[ioblock] " + toks[2] + " " + " ".join(t.split("/", 1)[1] for t in toks[3:])); continue
         if toks[0] == "[glue]": glues.append(toks[1:]); continue
         if toks[0] == "[external]": continue
